@@ -5,6 +5,8 @@ desolver.utilities.interpolation.CubicHermiteInterp.__call__/grad.
 """
 import numpy as np
 
+from .common import run_bounded
+
 PROPERTY = "C17"
 LEVEL = "other"
 EXPLANATION = (
@@ -74,10 +76,9 @@ def scenario(c, inst):
         if kind == "bisect":
             q = c.real("q")
             arr = list(elems) if inst["form"] == "list" else c.array(elems)
-            try:
-                r = deutil.search_bisection(arr, q)
-            except Exception as e:
-                c.check("bisect.no_exception", False, info=repr(e))
+            st, r = run_bounded(8.0, deutil.search_bisection, arr, q)
+            if st != "ok":
+                c.check("bisect.returns", False, info=repr(r) if st == "exc" else "does not terminate")
                 return
             c.note("r", int(r) if isinstance(r, (int, np.integer)) else repr(r))
             c.check("bisect.first_not_smaller", _spec_ok(c, elems, q, r, n))
@@ -85,10 +86,9 @@ def scenario(c, inst):
             m = inst["m"]
             qs = [c.real("q%d" % j) for j in range(m)]
             arr = c.array(elems)
-            try:
-                rv = deutil.search_bisection_vec(arr, c.array(qs))
-            except Exception as e:
-                c.check("bisectvec.no_exception", False, info=repr(e))
+            st, rv = run_bounded(8.0, deutil.search_bisection_vec, arr, c.array(qs))
+            if st != "ok":
+                c.check("bisectvec.returns", False, info=repr(rv) if st == "exc" else "does not terminate")
                 return
             c.check("bisectvec.shape", tuple(np.shape(rv)) == (m,))
             rv = [int(x) for x in rv]
